@@ -117,7 +117,16 @@ def run_c09(tier):
         for fn in (index.load_request_schema, index.load_response_schema):
             expect_exc(fn.__name__, _call(fn, k, 0), index.UnknownAPIKey, case, (k,))
         expect_exc("load_payload_module", _call(index.load_payload_module, k, 0, EntityType.request), index.UnknownAPIKey, case, (k,))
-    for n in ODD_NAMES:
+    # other spellings of every valid name: separators replaced or dropped, case changed, blanks added, camel case
+    respelled = set()
+    for api in pins:
+        words = api.split("_")
+        respelled |= {api.upper(), api.title(), " " + api, api + " ", api + "_", "_" + api, "".join(w.title() for w in words)}
+        if len(words) > 1:
+            respelled |= {"-".join(words), " ".join(words), "".join(words), ".".join(words), words[0] + "-" + "_".join(words[1:]),
+                          words[0] + "".join(w.title() for w in words[1:])}
+    respelled -= set(pins)
+    for n in sorted(respelled) + ODD_NAMES:
         for et in (EntityType.request, EntityType.header, EntityType.data):
             case = {"args": [n, 0, et.name]}
             expect_exc("load_entity_schema", _call(index.load_entity_schema, n, 0, et), index.UnknownEntity, case, (n,))
